@@ -87,6 +87,36 @@ class _Run:
             return f"re-encodes differently (unknown fields / presence): {gb.hex()[:80]} vs {bytes(exp).hex()[:80]}"
         return None
 
+    def _mutate_in_place(self, msg, cls, gen) -> Optional[str]:
+        tape = self.tape
+        ci = class_info(cls)
+
+        def plain_sub(fi):
+            return (fi.proto_type == "message" and not fi.wraps and not fi.group and not fi.optional and not fi.repeated
+                    and not fi.is_map and isinstance(fi.py_cls, type) and issubclass(fi.py_cls, betterproto.Message))
+        cands = [fi for fi in ci.fields if fi.repeated or fi.is_map or plain_sub(fi)]
+        if not cands:
+            return None
+        fi = tape.choice(cands, "inplace-field")
+        cur = getattr(msg, fi.name)
+        if fi.is_map:
+            k, v = next(iter(gen.field_value(fi, 1).items()))
+            cur[k] = v
+            return f"{fi.name}[{k!r}] = .."
+        if fi.repeated:
+            if cur and tape.draw(3, "inplace-shrink") == 2:
+                cur.clear()
+                return f"{fi.name}.clear()"
+            cur.append(gen.single(fi, 1, in_container=True))
+            return f"{fi.name}.append(..)"
+        sub_fields = [f2 for f2 in class_info(fi.py_cls).fields
+                      if not (f2.repeated or f2.is_map or f2.group or f2.optional or f2.proto_type == "message")]
+        if not sub_fields:
+            return None
+        f2 = tape.choice(sub_fields, "inplace-sub-field")
+        setattr(cur, f2.name, gen.single(f2, 2))
+        return f"{fi.name}.{f2.name} = .."
+
     # -- the run ------------------------------------------------------------------------------
     def go(self):
         tape, trace, stats = self.tape, self.trace, self.stats
@@ -120,6 +150,27 @@ class _Run:
             msg = gen.message(cls)
             wkind = tape.weighted([5, 2, 2, 1], "writer")  # 0 betterproto, 1 reference, 2 relay via older schema, 3 foreign
             wcls = cls
+            reused = None
+            if wkind == 0 and tape.draw(4, "redump-after-in-place-change?") == 3:
+                # a long-lived object: dumped earlier on this stream, changed IN PLACE since (list.append, map
+                # store, attribute of a nested message - nothing the root's __setattr__ sees), dumped again
+                olds = [o for o in frames if o.writer == "bp" and o.writer_cls is o.cls and o.msg is not None]
+                if olds:
+                    old = tape.choice(olds, "redump-which")
+                    obj = old.msg
+                    try:
+                        len(obj)                                   # a reader of the size, as dump() is
+                        snapshot = old.cls().parse(old.payload)
+                    except Exception as e:  # noqa: BLE001
+                        raise Violation("C10.S1", f"parse-raised-{type(e).__name__}", f"re-reading frame payload: {e}")
+                    how = self._mutate_in_place(obj, old.cls, gen)
+                    if how:
+                        old.msg = snapshot                         # the earlier frame keeps what was written then
+                        cls = fr.cls = old.cls
+                        wcls = cls
+                        msg = obj
+                        reused = how
+                        stats["probe:object-dumped-again-after-in-place-change"] += 1
             if wkind == 2:
                 names = [fi.name for fi in class_info(cls).fields]
                 drop = [n for n in names if tape.draw(2, "relay-drop?")]
@@ -229,6 +280,8 @@ class _Run:
                     fr.payload = payload = chunk[p:]
                     assert n == len(payload)
             fr.pstart = fr.start + len(wire.enc_varint(len(payload)))
+            if reused:
+                trace.append(f"frame {k} is an object dumped before, changed in place since: {reused}")
             trace.append(f"frame {k}: {cls.__name__} writer={fr.writer} bytes=[{fr.start},{fr.end}) "
                          f"payload={len(payload)}B sha1={_h(payload)} {'TORN ' if torn else ''}{short(msg, 100)}")
 
